@@ -452,7 +452,9 @@ int main() {
     }
     else if (w == "sweep" || w == "ltsweep" || w == "ctorsweep" || w == "thrsweep" || w == "ltthrsweep") {
       OpSpec o = parse_op(is);
-      out = sweep(*t, o, w == "ltsweep" || w == "ltthrsweep", w == "ctorsweep" ? "ctor" : (w == "thrsweep" || w == "ltthrsweep") ? "thread" : "alloc");
+      // a locked-table request needs a locked table whichever sweep runs it (`ctorsweep ltins` used to run without one and
+      // swept nothing)
+      out = sweep(*t, o, w == "ltsweep" || w == "ltthrsweep" || o.kind.rfind("lt", 0) == 0, w == "ctorsweep" ? "ctor" : (w == "thrsweep" || w == "ltthrsweep") ? "thread" : "alloc");
     }
     else if (w == "destroy") {
       lt.reset(); t.reset();
